@@ -1325,6 +1325,9 @@ def _never_none_elt(comp) -> bool:
     return False
 
 
+_OPERATOR_CMP = {"is_": ast.Is, "is_not": ast.IsNot, "eq": ast.Eq, "ne": ast.NotEq, "lt": ast.Lt, "le": ast.LtE, "gt": ast.Gt, "ge": ast.GtE}
+
+
 class _ExprNorm(ast.NodeTransformer):
     def visit_Compare(self, node):
         self.generic_visit(node)
@@ -1350,6 +1353,47 @@ class _ExprNorm(ast.NodeTransformer):
     def visit_Call(self, node):
         self.generic_visit(node)
         f = u(node.func)
+        # operator / functools callables applied on the spot:
+        #   attrgetter("a")(x) -> x.a      itemgetter(k)(x) -> x[k]      methodcaller("m", *a)(x) -> x.m(*a)      partial(f, *a, **k)(*b, **c) -> f(*a, *b, **k, **c)
+        if isinstance(node.func, ast.Call) and not any(isinstance(a, ast.Starred) for a in node.func.args):
+            inner, hn = node.func, u(node.func.func).split(".")[-1]
+            if hn == "attrgetter" and len(inner.args) == 1 and not inner.keywords and isinstance(inner.args[0], ast.Constant) and isinstance(inner.args[0].value, str) \
+                    and len(node.args) == 1 and not node.keywords and not isinstance(node.args[0], ast.Starred) \
+                    and all(p_.isidentifier() for p_ in inner.args[0].value.split(".")):
+                e = node.args[0]
+                for p_ in inner.args[0].value.split("."):
+                    e = ast.Attribute(value=e, attr=p_, ctx=ast.Load())
+                return ast.copy_location(e, node)
+            if hn == "itemgetter" and len(inner.args) == 1 and not inner.keywords and len(node.args) == 1 and not node.keywords and not isinstance(node.args[0], ast.Starred):
+                return ast.copy_location(ast.Subscript(value=node.args[0], slice=inner.args[0], ctx=ast.Load()), node)
+            if hn == "methodcaller" and inner.args and isinstance(inner.args[0], ast.Constant) and isinstance(inner.args[0].value, str) and inner.args[0].value.isidentifier() \
+                    and len(node.args) == 1 and not node.keywords and not isinstance(node.args[0], ast.Starred):
+                return ast.copy_location(ast.Call(func=ast.Attribute(value=node.args[0], attr=inner.args[0].value, ctx=ast.Load()), args=list(inner.args[1:]),
+                                                  keywords=list(inner.keywords)), node)
+            if hn == "partial" and inner.args and not ({k.arg for k in inner.keywords} & {k.arg for k in node.keywords}):
+                return self.visit_Call(ast.copy_location(ast.Call(func=inner.args[0], args=list(inner.args[1:]) + list(node.args),
+                                                                  keywords=list(inner.keywords) + list(node.keywords)), node))
+        # operator.is_not(a, b) -> a is not b   and friends
+        if isinstance(node.func, (ast.Name, ast.Attribute)) and not node.keywords and not any(isinstance(a, ast.Starred) for a in node.args):
+            on = f.split(".")[-1]
+            if (f.startswith("operator.") or f.startswith("op.") or isinstance(node.func, ast.Name)) and on in _OPERATOR_CMP and len(node.args) == 2 \
+                    and (f.startswith("operator.") or on in ("is_", "is_not")):
+                return ast.copy_location(ast.Compare(left=node.args[0], ops=[_OPERATOR_CMP[on]()], comparators=[node.args[1]]), node)
+            if f in ("operator.not_",) and len(node.args) == 1:
+                return ast.copy_location(ast.UnaryOp(op=ast.Not(), operand=node.args[0]), node)
+            if f in ("operator.getitem",) and len(node.args) == 2:
+                return ast.copy_location(ast.Subscript(value=node.args[0], slice=node.args[1], ctx=ast.Load()), node)
+            if f in ("operator.contains",) and len(node.args) == 2:
+                return ast.copy_location(ast.Compare(left=node.args[1], ops=[ast.In()], comparators=[node.args[0]]), node)
+        # filter(pred, xs) -> (x for x in xs if pred(x))        filter(None, xs) -> (x for x in xs if x)
+        if f == "filter" and len(node.args) == 2 and not node.keywords and not any(isinstance(a, ast.Starred) for a in node.args) \
+                and (norm._attr_chain(node.args[0]) is not None or isinstance(node.args[0], (ast.Call, ast.Lambda)) or (isinstance(node.args[0], ast.Constant) and node.args[0].value is None)):
+            self._fresh[0] += 1
+            v = f"f{self._fresh[0]}f_"
+            pred = ast.Name(id=v, ctx=ast.Load()) if isinstance(node.args[0], ast.Constant) else \
+                self.visit_Call(ast.Call(func=node.args[0], args=[ast.Name(id=v, ctx=ast.Load())], keywords=[]))
+            return ast.copy_location(ast.GeneratorExp(elt=ast.Name(id=v, ctx=ast.Load()), generators=[
+                ast.comprehension(target=ast.Name(id=v, ctx=ast.Store()), iter=node.args[1], ifs=[pred], is_async=0)]), node)
         # (lambda a, b: E)(x, y) -> E[a := x, b := y]    (simple arguments)
         if isinstance(node.func, ast.Lambda) and not node.keywords and not any(isinstance(a, ast.Starred) for a in node.args):
             la = node.func.args
@@ -1461,10 +1505,11 @@ class _ExprNorm(ast.NodeTransformer):
                                   iter=self.visit_Call(ast.Call(func=node.func, args=[node.args[0]], keywords=[])), ifs=[test], is_async=0)])
             return ast.copy_location(self._fuse(comp), node)
         # map(f, xs) -> (f(x) for x in xs)      (f a plain callable reference)
-        if f == "map" and len(node.args) == 2 and not node.keywords and norm._attr_chain(node.args[0]) is not None:
+        if f == "map" and len(node.args) == 2 and not node.keywords and (norm._attr_chain(node.args[0]) is not None or (
+                isinstance(node.args[0], ast.Call) and u(node.args[0].func).split(".")[-1] in ("attrgetter", "itemgetter", "methodcaller", "partial"))):
             self._fresh[0] += 1
             v = f"f{self._fresh[0]}m_"
-            call = ast.Call(func=node.args[0], args=[ast.Name(id=v, ctx=ast.Load())], keywords=[])
+            call = self.visit_Call(ast.Call(func=node.args[0], args=[ast.Name(id=v, ctx=ast.Load())], keywords=[]))
             return ast.copy_location(ast.GeneratorExp(elt=call, generators=[ast.comprehension(target=ast.Name(id=v, ctx=ast.Store()), iter=node.args[1], ifs=[], is_async=0)]), node)
         # list(map(f, xs)) -> [f(x) for x in xs]
         if f == "list" and len(node.args) == 1 and not node.keywords and isinstance(node.args[0], ast.Call) and u(node.args[0].func) == "map" \
@@ -3042,6 +3087,9 @@ class Canon:
                 consts[name] = v            # .. keyed by constants / enum members
             elif isinstance(v, ast.Call) and u(v.func) in ("struct.Struct", "Struct") and len(v.args) == 1 and isinstance(v.args[0], ast.Constant) and not v.keywords:
                 consts[name] = v            # a compiled struct layout: as good as its format string
+            elif isinstance(v, ast.Call) and u(v.func).split(".")[-1] in ("attrgetter", "itemgetter", "methodcaller") and v.args and not v.keywords \
+                    and all(isinstance(a_, ast.Constant) for a_ in v.args):
+                consts[name] = v            # a named accessor: as good as the attribute / item / method it names
             else:
                 k_ = _const_int(v, module)
                 if k_ is not None:
@@ -3294,6 +3342,90 @@ class Canon:
                     flat.append(s_)
             return flat
         return block(stmts)
+
+    def inline_callable_aliases(self, stmts, module, fn):
+        """x = M.f  (M an imported module)   /   x = r.m  (m a method of the program's classes, never stored as an instance attribute)
+        bound once to a local that is only ever CALLED or passed on: a function of a module and a method of an object do not change,
+        so the local is the attribute expression, wherever it is read (r not rebound in the function)."""
+        cand = {}
+        stores = {}
+        for s_ in stmts:
+            for n in ast.walk(s_):
+                if isinstance(n, ast.Name) and isinstance(n.ctx, (ast.Store, ast.Del)):
+                    stores[n.id] = stores.get(n.id, 0) + 1
+        params = {a.arg for a in fn.args.posonlyargs + fn.args.args + fn.args.kwonlyargs} | ({fn.args.vararg.arg} if fn.args.vararg else set()) | \
+            ({fn.args.kwarg.arg} if fn.args.kwarg else set())
+        if not hasattr(self, "_method_names"):
+            names, stored = set(), set()
+            for m_ in self.prog.modules.values():
+                for c_ in m_.classes.values():
+                    names |= set(c_.methods)
+                for n in ast.walk(m_.tree):
+                    if isinstance(n, ast.Attribute) and isinstance(n.ctx, (ast.Store, ast.Del)):
+                        stored.add(n.attr)
+            self._method_names = names - stored
+        for s_ in ast.walk(ast.Module(body=list(stmts), type_ignores=[])):
+            if isinstance(s_, ast.Assign) and len(s_.targets) == 1 and isinstance(s_.targets[0], ast.Name) and isinstance(s_.value, ast.Attribute):
+                x = s_.targets[0].id
+                ch = norm._attr_chain(s_.value)
+                if ch is None or stores.get(x, 0) != 1 or x in params:
+                    continue
+                root = ch[0] if isinstance(ch, (list, tuple)) else u(s_.value).split(".")[0]
+                if stores.get(root, 0) > 0 and root not in params and root != "self":
+                    continue
+                if stores.get(root, 0) > 0:
+                    continue
+                is_mod = root in module.imports and root not in params
+                is_meth = s_.value.attr in self._method_names and not s_.value.attr.startswith("__")
+                if is_mod or is_meth:
+                    cand[x] = s_
+        if not cand:
+            return stmts
+        # the alias is only called or handed on (never compared, stored into a structure that outlives .., rebound)
+        ok = dict(cand)
+        mod_ = ast.Module(body=list(stmts), type_ignores=[])
+        par = {}
+        for n in ast.walk(mod_):
+            for ch_ in ast.iter_child_nodes(n):
+                par[id(ch_)] = n
+        for n in ast.walk(mod_):
+            if isinstance(n, ast.Name) and isinstance(n.ctx, ast.Load) and n.id in ok:
+                p_ = par.get(id(n))
+                if not (isinstance(p_, ast.Call) and (p_.func is n or n in p_.args)) and not isinstance(p_, ast.keyword):
+                    ok.pop(n.id, None)
+        # (read before its binding in a loop / closure: leave alone when a nested function reads it)
+        for n in ast.walk(mod_):
+            if isinstance(n, (ast.FunctionDef, ast.AsyncFunctionDef, ast.Lambda)):
+                for k in ast.walk(n):
+                    if isinstance(k, ast.Name) and k.id in ok and isinstance(k.ctx, ast.Load):
+                        ok.pop(k.id, None)       # (read by a closure, which is looked up in the source as written)
+        if not ok:
+            return stmts
+        sub = {x: a.value for x, a in ok.items()}
+        drop = {id(a) for a in ok.values()}
+
+        class R(ast.NodeTransformer):
+            def visit_Assign(self, node):
+                if id(node) in drop:
+                    return None
+                return self.generic_visit(node)
+
+            def visit_Name(self, node):
+                if isinstance(node.ctx, ast.Load) and node.id in sub:
+                    return ast.copy_location(copy.deepcopy(sub[node.id]), node)
+                return node
+        out = []
+        for s_ in stmts:
+            r_ = R().visit(s_)
+            if r_ is not None:
+                out.append(ast.fix_missing_locations(r_))
+        for s_ in out:
+            for fld in ("body", "orelse", "finalbody"):
+                for n in ast.walk(s_):
+                    bb = getattr(n, fld, None)
+                    if isinstance(bb, list) and not bb and fld == "body" and isinstance(n, (ast.If, ast.For, ast.While, ast.With, ast.Try)):
+                        n.body = [ast.Pass()]
+        return out
 
     def records_out_of_try(self, stmts, module):
         """try: ..; x = _Rec(E)  except Exc: <leaves>          try: ..; x__1 = E  except Exc: <leaves>
@@ -4945,6 +5077,7 @@ class Canon:
         b = self.helper_object_views(b, module, cls)
         b = self.fold_own_bodies(b, module, cls, fn, early=True)
         b = self.sink_selected_tail(norm.split_parallel_assign(b))
+        b = self.inline_callable_aliases(b, module, fn)      # push = heapq.heappush / add = self.add_node: the callable, written where it is called
         look = self._lookup(module, cls, fn, set(inline), set(keep), accessors, supers)
         from .genloop import inline_generator_loops, inline_guard_helpers
         b = inline_generator_loops(b, look)       # loops over unknown generator helpers: the helper's loop with the body at its yield
@@ -5125,7 +5258,7 @@ class _PureExt:
     """membership oracle handed to norm.is_pure: constructor-like callees count as pure"""
     def __contains__(self, name):
         # (private classes too: _IndexArg(..), _Row(..))
-        return bool(name) and name.lstrip("_")[:1].isupper()
+        return bool(name) and (name.lstrip("_")[:1].isupper() or name in ("partial", "attrgetter", "itemgetter", "methodcaller"))
 
 
 _PURE_EXT = _PureExt()
